@@ -2,6 +2,7 @@ package interpreter
 
 import (
 	. "github.com/glyphlang/glyph/pkg/ast"
+	"reflect"
 
 	"fmt"
 	"math"
@@ -510,8 +511,21 @@ func (i *Interpreter) evaluateEq(left, right interface{}) (interface{}, error) {
 		return coercedLeft == coercedRight, nil
 	}
 
-	// For non-numeric types, compare directly
+	// For non-numeric types, compare directly. Arrays, objects and other values of a
+	// type that Go cannot compare with == would make the comparison panic; such values
+	// are never equal (the VM answers false for them as well).
+	if !comparableValue(left) || !comparableValue(right) {
+		return false, nil
+	}
 	return left == right, nil
+}
+
+// comparableValue reports whether v can be an operand of == without panicking.
+func comparableValue(v interface{}) bool {
+	if v == nil {
+		return true
+	}
+	return reflect.TypeOf(v).Comparable()
 }
 
 // evaluateNe handles inequality comparison
